@@ -81,3 +81,39 @@ PAIRS = [b'\x66\x67', b'\x67\x66', b'\x66\xf2', b'\x66\xf3', b'\xf2\x66', b'\xf3
 
 def truncations(b):
     return [b[:i] for i in range(1, len(b))]
+
+
+# ---------------------------------------------------------------- directed grids (independent of any seed)
+
+SIB_CELLS = [(0, 0x8d), (0, 0x8b), (0, 0x89), (0, 0x01), (0, 0x88), (0, 0xff), (0, 0xc7), (1, 0xb6), (0, 0xd9), (1, 0x10), (1, 0x6f)]
+DISP_VALUES = [0x0, 0x7f, 0x80, 0xff, 0x100, 0x7fff, 0x8000, 0x8001, 0xfff0, 0xffff, 0x10000, 0x12345678, 0x7fffffff, 0x80000000, 0xffff8000, 0xfffffff0, 0xffffffff]
+
+
+def sib_grid(tier):
+    """All 256 SIB bytes (every base x index x scale, including base == index and the ebp/esp special cases) under mod 0/1/2
+    for a handful of opcode cells that share the ModRM/SIB decoder. Yields (bytes, cls)."""
+    cells_ = SIB_CELLS[:5] if tier == 'quick' else SIB_CELLS
+    for cell in cells_:
+        base = cell_bytes(cell)
+        for mod, disp in ((0, b''), (1, b'\x08'), (2, b'\x00\x10\x00\x00'), (1, b'\xf8')):
+            for reg in ((0,) if tier == 'quick' else (0, 3)):
+                for sib in range(256):
+                    d = disp
+                    if mod == 0 and (sib & 7) == 5:
+                        d = b'\x44\x33\x22\x11'
+                    for p in ((b'',) if tier == 'quick' else (b'', b'\x66')):
+                        tail = bytes([(mod << 6) | (reg << 3) | 4, sib]) + d + b'\x11\x22\x33\x44\x55'
+                        yield (p + base + tail)[:16], (cell, p.hex(), mod, 4, sib, 'sibgrid')
+
+
+def disp_grid(tier):
+    """Absolute / moffs / disp32 / disp8 memory operands with boundary displacement values, sizes 8/16/32 (prefix 66)."""
+    import struct
+    heads = [b'\xa0', b'\xa1', b'\xa2', b'\xa3', b'\x8b\x05', b'\x89\x05', b'\x8a\x0d', b'\xff\x35', b'\x0f\xb7\x05', b'\xdf\x05', b'\x8b\x83', b'\x89\x8d']
+    if tier != 'quick':
+        heads += [b'\x01\x05', b'\xc7\x05', b'\x8d\x05', b'\x0f\xb6\x15', b'\xd9\x05', b'\xdd\x1d', b'\xfe\x05', b'\x8b\x04\x25', b'\x8b\x04\x8d']
+    for h in heads:
+        for v in DISP_VALUES:
+            for p in (b'', b'\x66', b'\x64'):
+                b = p + h + struct.pack('<I', v) + b'\x11\x22\x33\x44\x55'
+                yield b[:16], ((9, h[0]), p.hex(), 0, 5, None, 'dispgrid')
